@@ -17,6 +17,24 @@ def sortSends (l : List Send) : List Send := l.foldr insertSend []
 def sendToks (l : List Send) : String :=
   String.join (l.map fun s => s!" {s.t} {boolTok s.mc} {s.host}")
 
+/-- Lost wake-up in mdlayher/schedgroup (K-2): `Schedule` signals the monitor goroutine with a
+    non-blocking send; when the monitor is not waiting at that very moment the new timer is only
+    armed at the monitor's next wake-up (the next `Schedule` call or the next timer that fires).
+    `lateOk model impl wake`: per destination the same transmissions in the same order, each
+    on time or late at one of the wake-up instants. -/
+def lateOkDst (wake : List Time) : List Time → List Time → Bool
+  | [], [] => true
+  | t :: ts, t' :: ts' => (t' == t || (decide (t < t') && wake.contains t')) && lateOkDst wake ts ts'
+  | _, _ => false
+
+def lateOk (model impl : List Send) (wake : List Time) : Bool :=
+  let dsts := (model ++ impl).map (fun s => (s.mc, s.host)) |>.eraseDups
+  dsts.all fun d =>
+    lateOkDst wake ((model.filter fun s => (s.mc, s.host) == d).map (·.t)) ((impl.filter fun s => (s.mc, s.host) == d).map (·.t))
+
+def lostNote : String :=
+  "class=schedgroup-lost-wakeup a scheduled transmission fired late, at the scheduler's next wake-up (lost wake-up in mdlayher/schedgroup.Schedule)"
+
 structure SchCase where
   unicastOnly : Bool
   stop : Time
@@ -27,7 +45,8 @@ def pSchCase : P SchCase := do
   let uo ← P.bool; let stop ← P.int
   let evs ← P.list (do let t ← P.int; let h ← P.nat; pure (t, h))
   let draws ← P.list P.int
-  pure { unicastOnly := uo, stop := stop, evs := evs, draws := draws }
+  -- requests at or after the stop instant are never handed to the scheduler
+  pure { unicastOnly := uo, stop := stop, evs := evs.filter (fun e => decide (e.1 < stop)), draws := draws }
 
 def toReq (e : Time × Nat) : Time × Req := (e.1, if e.2 == 0 then .mc else .uc e.2)
 
@@ -61,7 +80,12 @@ def sch6 (c impl : List String) : Option Verdict := do
   let ok := i.ok && (cs.unicastOnly && (mcSends i.writes).isEmpty ||
       !cs.unicastOnly && Spec.C06.holds cs.stop triggers (0 :: mcSends i.writes))
   let close := triggers.zip triggers.tail |>.any fun (a, b) => decide (b - a < 6 * second)
-  pure { model := schCommon cs, oracle := ok, nontrivial := close && !cs.unicastOnly }
+  let m := schModel cs
+  let exact := i.ok && i.writes == m
+  let late := !exact && i.ok && lateOk m i.writes (cs.evs.map (·.1) ++ m.map (·.t))
+  pure { model := schCommon cs, oracle := ok, nontrivial := close && !cs.unicastOnly,
+         note := if late && !ok then lostNote else "",
+         agreeOverride := if late then some true else none }
 
 /-- same line, C07 oracle: unicast answers exactly once, unicast-only, counters -/
 def sch7 (c impl : List String) : Option Verdict := do
@@ -72,7 +96,12 @@ def sch7 (c impl : List String) : Option Verdict := do
     (!cs.unicastOnly || (mcSends i.writes).isEmpty) &&
     i.sentU == (ucSends i.writes).length && i.sentM == (mcSends i.writes).length
   let busy := rs.any fun r => cs.evs.any fun e => e != r && decide (r.1 ≤ e.1) && decide (e.1 < r.1 + 500 * ms)
-  pure { model := schCommon cs, oracle := ok, nontrivial := busy }
+  let m := schModel cs
+  let exact := i.ok && i.writes == m
+  let late := !exact && i.ok && lateOk m i.writes (cs.evs.map (·.1) ++ m.map (·.t))
+  pure { model := schCommon cs, oracle := ok, nontrivial := busy,
+         note := if late && !ok then lostNote else "",
+         agreeOverride := if late then some true else none }
 
 end Driver.Sched
 
@@ -86,7 +115,9 @@ def pAdvCase : P AdvCase := do
     pure ({ t := t, kind := k, host := h, hop := hop } : AdvEvent))
   let md ← P.list P.int
   let ud ← P.list P.int
-  pure { min := mn, max := mx, unicastOnly := uo, stop := stop, failWrite := fw, evs := evs, mdraws := md, udraws := ud }
+  -- messages at or after the stop instant are never delivered
+  pure { min := mn, max := mx, unicastOnly := uo, stop := stop, failWrite := fw,
+         evs := evs.filter (fun e => decide (e.t < stop)), mdraws := md, udraws := ud }
 
 structure ImplAdv where
   status : String
@@ -132,6 +163,15 @@ def effStop (c : AdvCase) (i : ImplAdv) : Time :=
   | some (w, _) => w.t
   | none => c.stop
 
+/-- the run matches the model except for transmissions that fired late at a wake-up instant
+    (no scripted failure involved; counters and status as predicted) -/
+def advLate (c : AdvCase) (i : ImplAdv) : Bool :=
+  let m := writes c
+  let toSend := fun (w : Write) => ({ t := w.t, mc := w.mc, host := w.host } : Send)
+  let implW := i.writes.map (·.1)
+  decide (c.failWrite < 0) && implW != m && i.status == "nil" && !implW.any (·.failed) &&
+    lateOk (m.map toSend) (implW.map toSend) ((allRequests c).map (·.1) ++ m.map (·.t))
+
 /-- `adv6 …` — C06 on a full advertiser run -/
 def adv6 (c impl : List String) : Option Verdict := do
   let cs ← P.run pAdvCase c
@@ -142,7 +182,10 @@ def adv6 (c impl : List String) : Option Verdict := do
   let ok := i.status != "hung" &&
     (if cs.unicastOnly then mcW.isEmpty else Spec.C06.holds stop (triggers.filter (· < stop)) mcW)
   let close := triggers.zip triggers.tail |>.any fun (a, b) => decide (b - a < 6 * second)
-  pure { model := advModelString cs, oracle := ok, nontrivial := close && !cs.unicastOnly }
+  let late := advLate cs i
+  pure { model := advModelString cs, oracle := ok, nontrivial := close && !cs.unicastOnly,
+         note := if late && !ok then lostNote else "",
+         agreeOverride := if late then some true else none }
 
 /-- `adv7 …` — C07 on a full advertiser run -/
 def adv7 (c impl : List String) : Option Verdict := do
@@ -166,6 +209,9 @@ def adv7 (c impl : List String) : Option Verdict := do
     i.errT == failedNonInitial &&
     (i.dead || (i.recv == recvWant && i.invalid == invWant))
   let busy := rs.any fun r => cs.evs.any fun e => (e.t, e.host) != r && decide (r.1 ≤ e.t) && decide (e.t < r.1 + 500 * ms)
-  pure { model := advModelString cs, oracle := ok, nontrivial := busy }
+  let late := advLate cs i
+  pure { model := advModelString cs, oracle := ok, nontrivial := busy,
+         note := if late && !ok then lostNote else "",
+         agreeOverride := if late then some true else none }
 
 end Driver.Sched
